@@ -9,7 +9,7 @@
    finite per-version obligations and what they mean.  Lemmas are in Proofs/ResolveFacts.v. *)
 From Coq Require Import List Bool Arith NArith ZArith Init.Byte.
 From HL7 Require Import Lib.Str Model.Result Model.Ref Model.Tree Model.Parser Model.Resolve Gen.Params Gen.Tables.
-From HL7 Require Import Proofs.RoundTripStr Proofs.ResolveFacts.
+From HL7 Require Import Proofs.RoundTripStr Proofs.PlainIndex Proofs.ResolveFacts.
 From HL7 Require Oblig.C14_v2_1 Oblig.C14_v2_2 Oblig.C14_v2_3 Oblig.C14_v2_3_1 Oblig.C14_v2_4 Oblig.C14_v2_5
                  Oblig.C14_v2_5_1 Oblig.C14_v2_6 Oblig.C14_v2_7 Oblig.C14_v2_8 Oblig.C14_v2_8_1 Oblig.C14_v2_8_2.
 Import ListNotations.
@@ -247,6 +247,62 @@ Proof.
 Qed.
 Print Assumptions C14_no_such.
 
+(* ---- positions start at 1 and are written plainly (core.py:93 _valid_child_name) ---- *)
+
+(* the child names of parent q are exactly <p>_<k> with k = 1, 2, ... written as str(k), p = q up to
+   letter case: in particular no index 0, no sign, no leading zero, no blank *)
+Theorem C14_child_names_are_positions c q :
+  valid_child_name (Some c) (Some q) = true <->
+  exists p k, k <> 0 /\ c = name_idx p k /\ upper p = upper q.
+Proof. apply valid_child_name_iff. Qed.
+Print Assumptions C14_child_names_are_positions.
+
+(* an index that is not such a numeral names no child of any parent; <p>_0, <p>_-1, <p>_07, <p>_+1,
+   "<p>_ 1", "<p>_1 ", <p>_00, <p>_-0 and <p>_ are instances (int() accepts all but the last) *)
+Theorem C14_unplain_index_no_child :
+  (forall c q p idx, rsplit_us c = Some (p, idx) -> plain_index idx = false -> valid_child_name (Some c) q = false)
+  /\ (forall p q, forallb (fun idx => negb (valid_child_name (Some (p ++ unbs "_" ++ idx)) q)) unplain_suffixes = true)
+  /\ unplain_suffixes = [unbs "0"; unbs "-1"; unbs "07"; unbs "+1"; unbs " 1"; unbs "1 "; unbs "00"; unbs "-0"; unbs ""].
+Proof.
+  split; [exact valid_child_name_unplain|]. split; [exact unplain_suffixes_refused|reflexivity].
+Qed.
+Print Assumptions C14_unplain_index_no_child.
+
+(* EVERY segment, open-ended ones included (no premise on s_inf): a name <...>_<idx> whose index is not
+   a plain numeral >= 1 and that is neither the HL7 name nor the long name of a row is refused.
+   (Before the fix of _valid_child_name an open-ended segment took QPD_0, QPD_-1, QPD_07 as children.) *)
+Theorem C14_no_such_unplain_index t lvl s vcs n p idx :
+  built (s_st s) vcs ->
+  (forall vc, In vc vcs -> vc_name vc <> upper n) ->
+  (forall vc, In vc vcs -> ref_long (vc_ref vc) <> Some (Some (upper n))) ->
+  smem (upper n) cls_attrs_Segment = false ->
+  rsplit_us (upper n) = Some (p, idx) -> plain_index idx = false ->
+  exists x, resolve t lvl (PSeg s) n = Err x /\ not_such x.
+Proof.
+  intros B Nn Nl G R P. apply (C14_no_such t lvl (PSeg s) (s_st s) vcs n); try assumption; try reflexivity.
+  - intros s' [= <-]. right. exact (valid_child_name_unplain _ _ p idx R P).
+  - intros f [=].
+Qed.
+Print Assumptions C14_no_such_unplain_index.
+
+(* the same for a segment's own index 0 in particular, stated with name_idx *)
+Theorem C14_no_such_position_0 t lvl s vcs :
+  built (s_st s) vcs ->
+  (forall vc, In vc vcs -> vc_name vc <> name_idx (upper (s_name s)) 0) ->
+  (forall vc, In vc vcs -> ref_long (vc_ref vc) <> Some (Some (name_idx (upper (s_name s)) 0))) ->
+  exists x, resolve t lvl (PSeg s) (name_idx (s_name s) 0) = Err x /\ not_such x.
+Proof.
+  intros B Nn Nl.
+  assert (U : upper (name_idx (s_name s) 0) = name_idx (upper (s_name s)) 0) by apply name_idx_upper.
+  apply (C14_no_such_unplain_index t lvl s vcs _ (upper (s_name s)) (nat_to_str 0)); try assumption.
+  - now rewrite U.
+  - now rewrite U.
+  - rewrite U. apply digit_name_not_attr; [apply attrs_no_digit_Segment|apply has_digit_name_idx].
+  - rewrite U. apply rsplit_us_name_idx.
+  - reflexivity.
+Qed.
+Print Assumptions C14_no_such_position_0.
+
 (* non-existent indices of positional paths: the answer of the component name is the answer *)
 Theorem C14_no_such_component_index t lvl f fname a b j d :
   f_name f = Some fname -> upper fname = fname -> bsplit US fname = [a; b] ->
@@ -269,7 +325,9 @@ Theorem C14_no_such_subcomponent_index t lvl f fname a b j k d st ce i2 d2 c x :
 Proof. apply positional_no_subcomponent. Qed.
 Print Assumptions C14_no_such_subcomponent_index.
 
-(* Fields of datatype `varies` (OBX_5, QPD_3, ...): <SEG>_<i>_<j> is the component VARIES_<j>, and a
+(* Fields of datatype `varies` (OBX_5, QPD_3, ...): <SEG>_<i>_<j>, j >= 1, is the component VARIES_<j>;
+   position 0 is no position: <SEG>_<i>_0 is refused with ChildNotFound (VARIES_0 is no child name since
+   _valid_child_name requires a plain index >= 1; premise: the tables define no datatype VARIES_0); and a
    subcomponent path <SEG>_<i>_<j>_<k> designates nothing -- the field has no component structure to
    decode <k> against -- and is refused with ChildNotFound.  (Before hl7apy commit 0d2eed5 the lookup
    self.structure_by_name[component_name] raised TypeError here; the model followed the fix.) *)
@@ -277,9 +335,12 @@ Theorem C14_no_such_varies t lvl f fname a b :
   f_name f = Some fname -> upper fname = fname -> bsplit US fname = [a; b] ->
   f_dt f = Some (unbs "varies") -> base t (Some (unbs "varies")) = false ->
   (forall st, f_st f = Some st -> has_map_st st = false) ->
-  (forall j, field_find_child_reference t f (name_idx fname j) = Err (HL7 EChildNotFound) ->
+  (forall j, j <> 0 -> field_find_child_reference t f (name_idx fname j) = Err (HL7 EChildNotFound) ->
              resolve t lvl (PField f) (name_idx fname j) =
              Ok (TChild (mk_sentry (name_idx (unbs "VARIES") j) varies_leaf CMP)))
+  /\ (slookup (name_idx (unbs "VARIES") 0) (t_components t) = None ->
+      field_find_child_reference t f (name_idx fname 0) = Err (HL7 EChildNotFound) ->
+      resolve t lvl (PField f) (name_idx fname 0) = Err (HL7 EChildNotFound))
   /\ (forall j k, field_find_child_reference t f (name_idx (name_idx fname j) k) = Err (HL7 EChildNotFound) ->
                   resolve t lvl (PField f) (name_idx (name_idx fname j) k) = Err (HL7 EChildNotFound)).
 Proof. apply positional_varies. Qed.
@@ -292,13 +353,15 @@ Theorem C14_no_such_varies_witness :
               is_varies (f_dt f) = true /\
               resolve Gen.Tables_v2_5.tables TOLERANT (PField f) (unbs "obx_5_1_1") = Err (HL7 EChildNotFound) /\
               resolve Gen.Tables_v2_5.tables TOLERANT (PField f) (unbs "obx_5_1") =
-                Ok (TChild (mk_sentry (unbs "VARIES_1") varies_leaf CMP)).
+                Ok (TChild (mk_sentry (unbs "VARIES_1") varies_leaf CMP)) /\
+              slookup (name_idx (unbs "VARIES") 0) (t_components Gen.Tables_v2_5.tables) = None /\
+              resolve Gen.Tables_v2_5.tables TOLERANT (PField f) (unbs "obx_5_0") = Err (HL7 EChildNotFound).
 Proof.
   destruct (parent_segment Gen.Tables_v2_5.tables (unbs "OBX")) as [s|] eqn:S; [|vm_compute in S; discriminate].
   destruct (parent_field Gen.Tables_v2_5.tables TOLERANT s (unbs "OBX_5")) as [f|] eqn:Fd.
   - exists s, f. split; [reflexivity|]. split; [exact Fd|].
     vm_compute in S. injection S as <-. vm_compute in Fd. injection Fd as <-.
-    split; [reflexivity|]. split; vm_compute; reflexivity.
+    split; [reflexivity|]. repeat split; vm_compute; reflexivity.
   - exfalso. vm_compute in S. injection S as <-. vm_compute in Fd. discriminate.
 Qed.
 Print Assumptions C14_no_such_varies_witness.
@@ -390,7 +453,7 @@ Proof.
   assert (I' : In (name, r) (real_segments t)).
   { unfold real_segments. apply filter_In. split; [exact I|]. cbn [fst].
     destruct (streqb_spec name (unbs "ANYHL7SEGMENT")); [contradiction|reflexivity]. }
-  destruct (check_segment_spec t TOLERANT (name, r) (S _ I')) as (s & P & _ & _ & R).
+  destruct (check_segment_spec t TOLERANT (name, r) (S _ I')) as (s & P & _ & _ & _ & R).
   exists s. split; [exact P|]. intros e Ie.
   exact (reached_any_case t TOLERANT (PSeg s) _ _ e attrs_reserved_Segment (R e Ie)).
 Qed.
@@ -493,6 +556,40 @@ Theorem C14_field_like_datatype t f g n :
 Proof. apply field_find_same_maps. Qed.
 Print Assumptions C14_field_like_datatype.
 
+(* every segment of every version, the open-ended ones (QPD, RDF, ...) included: <SEG>_0, <SEG>_-1,
+   <SEG>_07 and <SEG>_+1, in upper and lower case, designate nothing (ChildNotFound / ChildNotValid).
+   Part of the per-version obligations (check_segment: unplain_refused). *)
+Theorem C14_unplain_index_all_versions v t name r :
+  tables_of v = Some t -> In (name, r) (t_segments t) -> name <> unbs "ANYHL7SEGMENT" ->
+  exists s, parent_segment t name = Ok s /\
+    forall sfx, In sfx [unbs "_0"; unbs "_-1"; unbs "_07"; unbs "_+1"] ->
+    forall n, n = name ++ sfx \/ n = lower name ++ sfx ->
+    exists x, resolve t TOLERANT (PSeg s) n = Err x /\ not_such x.
+Proof.
+  intros T I N. pose proof (C14_tables_of v t T) as F.
+  destruct (report_fine_parts t TOLERANT F) as (S & _).
+  assert (I' : In (name, r) (real_segments t)).
+  { unfold real_segments. apply filter_In. split; [exact I|]. cbn [fst].
+    destruct (streqb_spec name (unbs "ANYHL7SEGMENT")); [contradiction|reflexivity]. }
+  destruct (check_segment_spec t TOLERANT (name, r) (S _ I')) as (s & P & _ & _ & Un & _).
+  exists s. split; [exact P|]. exact (unplain_refused_spec t TOLERANT s name Un).
+Qed.
+Print Assumptions C14_unplain_index_all_versions.
+
+(* ... and QPD of v2.5 is an open-ended segment among them: QPD_7 is a child, QPD_07 is none *)
+Theorem C14_unplain_index_witness :
+  exists s, parent_segment Gen.Tables_v2_5.tables (unbs "QPD") = Ok s /\ s_inf s = true /\
+            target_obs (resolve Gen.Tables_v2_5.tables TOLERANT (PSeg s) (unbs "qpd_7")) = (0, unbs "QPD_7", []) /\
+            resolve Gen.Tables_v2_5.tables TOLERANT (PSeg s) (unbs "qpd_07") = Err (HL7 EChildNotFound) /\
+            resolve Gen.Tables_v2_5.tables TOLERANT (PSeg s) (unbs "qpd_0") = Err (HL7 EChildNotFound) /\
+            resolve Gen.Tables_v2_5.tables TOLERANT (PSeg s) (unbs "qpd_-1") = Err (HL7 EChildNotFound).
+Proof.
+  destruct (parent_segment Gen.Tables_v2_5.tables (unbs "QPD")) as [s|] eqn:S; [|vm_compute in S; discriminate].
+  exists s. split; [reflexivity|]. vm_compute in S. injection S as <-.
+  repeat split; vm_compute; reflexivity.
+Qed.
+Print Assumptions C14_unplain_index_witness.
+
 (* ================================================================== *)
 (* 6. Examples: the hypotheses are satisfiable, on the v2.5 tables      *)
 
@@ -522,6 +619,13 @@ Example ex_no_such :
   [q_seg "PID" "value"; q_seg "PID" "evn_1"; q_seg "PID" "pid_999"; q_seg "QPD" "qpd_99"; q_seg "QPD" "pid_99";
    q_seg "QPD" "qpd_x"]
   = [(2, "", ""); (105, "", ""); (104, "", ""); (0, "QPD_99", ""); (104, "", ""); (104, "", "")]%bs.
+Proof. vm_compute. reflexivity. Qed.
+(* ... written plainly, from 1 *)
+Example ex_no_such_unplain :
+  [q_seg "QPD" "qpd_0"; q_seg "QPD" "qpd_-1"; q_seg "QPD" "qpd_07"; q_seg "QPD" "qpd_+7"; q_seg "QPD" "qpd_7";
+   q_field "OBX" "obx_5" "obx_5_0"; q_field "OBX" "obx_5" "varies_0"; q_field "OBX" "obx_5" "varies_2"]
+  = [(104, "", ""); (104, "", ""); (104, "", ""); (104, "", ""); (0, "QPD_7", "");
+     (104, "", ""); (104, "", ""); (0, "VARIES_2", "")]%bs.
 Proof. vm_compute. reflexivity. Qed.
 (* positional paths *)
 Example ex_positional :
